@@ -74,12 +74,20 @@ def trTop2 (acc : TopAcc) : Stmt → Except TrErr TopAcc
     let s' ← trNested acc.te false 0 s
     pure { acc with setup := s' :: acc.setup }
 
-def tr2 (p : Prog) : Except TrErr CProg := do
+def tr2Core (p : Prog) : Except TrErr CProg := do
   let acc ← trTop2 {} p.pre
   let loop ← match p.body with
     | none => pure Stmt.skip
     | some b => trNested acc.te true 0 b
   pure { globals := acc.globals.reverse, setup := seqOf acc.setup.reverse, loop := loop }
+
+def tr2 (p : Prog) : Except TrErr CProg := if p.numbered then tr2Core p else .error .outsideFragment
+
+theorem tr2_ok {p : Prog} {c : CProg} (h : tr2 p = .ok c) : p.numbered = true ∧ tr2Core p = .ok c := by
+  unfold tr2 at h
+  split at h
+  · exact ⟨‹_›, h⟩
+  · cases h
 
 /-! ### the fragment on which `tr2` is proved correct -/
 
